@@ -426,6 +426,10 @@ var c08CustomFields = []fsSpec{
 	{Kind: "Widget", Path: "spec/template/metadata/labels", Create: true},
 	{Group: "apps", Version: "v1", Kind: "StatefulSet", Path: "spec/template/metadata/labels", Create: true},
 	{Path: "spec/ports[]/labels", Kind: "Service", Create: true},
+	// same kind and path as a default row but another group / version: must NOT count as already present
+	{Group: "example.com", Kind: "StatefulSet", Path: "spec/template/metadata/labels", Create: true},
+	{Group: "batch", Version: "v2", Kind: "Job", Path: "spec/template/metadata/labels", Create: true},
+	{Group: "example.com", Kind: "StatefulSet", Path: "spec/selector/matchLabels", Create: true},
 }
 
 func genDirs(rng *Rng, allowFields bool) c08Dirs {
